@@ -88,8 +88,8 @@ def verifyReg (c : RegCred) (e : RegExpect) : M VerifiedReg := do
   let ad := ao.authData
   let rpHash ← sha256M (utf8 e.rpId)
   reject (ad.rpIdHash != rpHash) (regErr "reg.rpid-hash")
-  reject (regUpRejects e.requireUP ad.flags.up) (regErr "reg.up")
-  reject (regUvRejects e.requireUV ad.flags.uv) (regErr "reg.uv")
+  reject (regUpRejects e.requireUP e.requireUV ad.flags.up ad.flags.uv) (regErr "reg.up")
+  reject (regUvRejects e.requireUP e.requireUV ad.flags.up ad.flags.uv) (regErr "reg.uv")
   let att ← liftE (someOr ad.attested (regErr "reg.no-attested-data"))
   reject att.credentialId.isEmpty (regErr "reg.credid-empty")
   reject att.publicKey.isEmpty (regErr "reg.key-empty")
